@@ -62,7 +62,10 @@ func wfTxOpt(tx *transaction.Transaction, nullIndexIssuance bool) bool {
 			}
 		} else {
 			if in.Index > 0x3fffffff {
-				return false
+				// hash domain only: a high bit that is not shadowed by the flag it doubles as on the wire
+				if !nullIndexIssuance || (in.Index&0x40000000 != 0 && in.IsPegin) || (in.Index&0x80000000 != 0 && in.Issuance != nil) {
+					return false
+				}
 			}
 			if in.Index == 0x3fffffff && in.IsPegin && in.Issuance != nil {
 				return false
